@@ -444,16 +444,16 @@ func dom(prefix string, n int, withEmpty bool) []string {
 func (h *harness) makeSchema(mode string) {
 	g := h.g
 	nk := g.Range(2, 8)
-	fam := g.Pick(4, 2, 3, 1, 1, 1)
+	fam := g.Pick(4, 2, 3, 1, 1, 1, 1)
 	switch mode {
 	case "C08":
-		fam = g.Pick(0, 0, 3, 0, 1, 2)
+		fam = g.Pick(0, 0, 3, 0, 1, 2, 2)
 	case "C07":
-		fam = g.Pick(3, 3, 0, 1, 0, 0)
+		fam = g.Pick(3, 3, 0, 1, 0, 0, 0)
 	case "C06":
-		fam = g.Pick(3, 1, 3, 1, 1, 1)
+		fam = g.Pick(3, 1, 3, 1, 1, 1, 1)
 	case "C03":
-		fam = g.Pick(4, 2, 3, 1, 2, 1)
+		fam = g.Pick(4, 2, 3, 1, 2, 1, 1)
 	}
 	sm := &schemaModel{tables: map[string]*tblDef{}}
 	add := func(t *tblDef) {
@@ -536,6 +536,22 @@ func (h *harness) makeSchema(mode string) {
 			Idx: []idxDef{{Mode: 'k', Cols: []int{0}}, {Mode: 'i', Cols: []int{1, 2}, FkTable: "md", FkCols: []int{0, 1}, FkMode: m2}},
 			Dom: [][]string{dom("l", nk, false), dom("a", np, true), dom("b", 3, true)}})
 		h.family = "G/" + modeName(m1) + "/" + modeName(m2)
+	case 6:
+		// one key that two tables refer to, with different rules (the back links of the key
+		// are kept in creation order: the first one's rule must not decide for the second)
+		modes := []int{fkBlock, fkCascade, fkCascadeUpdate}
+		m1, m2 := modes[g.Choose(3)], modes[g.Choose(3)]
+		np := 2 + g.Choose(2)
+		add(&tblDef{Name: "pp", Cols: []string{"k", "x", "tok"},
+			Idx: []idxDef{{Mode: 'k', Cols: []int{0}}, {Mode: 'i', Cols: []int{1}}},
+			Dom: [][]string{dom("k", np, false), dom("x", 2, true)}})
+		add(&tblDef{Name: "c1", Cols: []string{"ck", "pk", "tok"},
+			Idx: []idxDef{{Mode: 'k', Cols: []int{0}}, {Mode: 'i', Cols: []int{1}, FkTable: "pp", FkCols: []int{0}, FkMode: m1}},
+			Dom: [][]string{dom("c", nk, false), dom("k", np, true)}})
+		add(&tblDef{Name: "c2", Cols: []string{"dk", "pk", "tok"},
+			Idx: []idxDef{{Mode: 'k', Cols: []int{0}}, {Mode: 'i', Cols: []int{1}, FkTable: "pp", FkCols: []int{0}, FkMode: m2}},
+			Dom: [][]string{dom("d", nk, false), dom("k", np, true)}})
+		h.family = "H/" + modeName(m1) + "+" + modeName(m2)
 	default:
 		h.family = "D"
 		add(tA("t"))
